@@ -7,7 +7,7 @@ the same abstract value the wire bytes were made from; also after compose -> par
 """
 import random
 
-from vmon import core, structural
+from vmon import roundtrip, core, structural
 from vmon.ref import tls as ref
 
 
@@ -41,7 +41,14 @@ class Check(core.CheckBase):
         wanted = case.get('index')
         for index in range(self.PER_BLOCK):
             maker = self.gen.client_hello_scsv_anywhere if index % 3 == 0 else self.gen.client_hello
-            pair = maker(rng)
+            try:
+                pair = maker(rng)
+            except Exception as e:  # pylint: disable=broad-except
+                # the public constructors refuse values the specification allows: such a hello cannot be built, parsed or fingerprinted
+                if wanted is None or index == wanted:
+                    found.append(self.violation(roundtrip.exc_key('construct-raises', e),
+                                                'building a specification-conformant client hello raised %r' % e, dict(case, index=index)))
+                continue
             if wanted is not None and index != wanted:
                 continue
             found.extend(self.judge_hello(pair, dict(case, index=index)))
@@ -88,8 +95,10 @@ class Check(core.CheckBase):
         except Exception as e:  # pylint: disable=broad-except
             self.stats['hello_rejected'] += 1
             self.evaluations += 1
-            del e
-            return found        # C06's business
+            # a conformant hello (written by the reference encoder) that cannot be parsed has no fingerprint at all
+            return [self.violation('hello-rejected|%s' % type(e).__name__,
+                                   'a specification-conformant client hello (%s..) is refused, so no JA3 exists: %r' % (
+                                       pair.wire[:24].hex(), e), case)]
         self.observe(pair.wire, True, {'wire': pair.wire[:60].hex(), 'len': len(pair.wire), 'expected_ja3': extra['ja3'][:120]})
         try:
             got = parsed.ja3()
